@@ -4,6 +4,7 @@ from replay import ao_native as N
 
 
 def scenarios(seed, tier, failed):
+    yield {'kind': 'subclass-capacity', 'capacity': 640, 'posts': 560, 'timeout': 30}
     from replay import ld_schedules
     for k, sc in enumerate(ld_schedules.scenarios(seed + 4, tier)):
         if k < (40 if tier == 'quick' else 1500):
@@ -12,7 +13,27 @@ def scenarios(seed, tier, failed):
         yield sc
 
 
+def run_subclass_capacity(sc):
+    """An idle (not started) active object of a subclass with a larger QUEUE_SIZE: after any number of posts every
+    pending event owns a wake-up token, whatever capacity the object ended up with."""
+    from miros.activeobject import ActiveObject
+    from miros.event import Event
+
+    class Big(ActiveObject):
+        QUEUE_SIZE = sc['capacity']
+    ao = Big(name='c04s')
+    for i in range(sc['posts']):
+        (ao.post_fifo if i % 3 else ao.post_lifo)(Event(signal='C04_S'))
+        pending, tokens = len(ao.queue.deque), ao.queue.locking_queue.qsize()
+        if tokens < pending:
+            return False, 'after %d posts %d events are pending but only %d wake-up tokens exist: the consumer ' \
+                          'sleeps with work left' % (i + 1, pending, tokens), 'ActiveObject.__init__[subclass]'
+    return True, ''
+
+
 def run(sc):
+    if sc.get('kind') == 'subclass-capacity':
+        return run_subclass_capacity(sc)
     if sc.get('kind') == 'ld-schedule':
         from replay import ld_schedules
         ok, detail = ld_schedules.run_schedule(sc)
